@@ -7,7 +7,8 @@ META = {
  'modelled_code': ['rustzx-core/src/zx/machine/mod.rs (contention_clocks, port_is_contended, bank_is_contended, SPECS_48K/128K)',
                    'rustzx-core/src/zx/machine/specs.rs (derived line/frame lengths)',
                    'rustzx-core/src/zx/controller.rs (do_contention*, addr_is_contended, io_contention_first/last, wait_mreq, wait_no_mreq, wait_internal clock part, read_io/write_io timing)',
-                   'rustzx-core/src/zx/memory.rs (get_page)', 'rustzx-z80/src/bus.rs (wait_loop, read, write defaults)'],
+                   'rustzx-core/src/zx/memory.rs (get_page)', 'rustzx-z80/src/bus.rs (wait_loop, read, write defaults)',
+                   'the whole impl Z80Bus for ZXController composed with the Z80 reference model (lean/ZxVerif/Model/Spectrum.lean) in the lock-step layer'],
  'assumptions': ['the sequence of bus cycles an instruction issues is the business of C03; here it is taken from the real Z80 running on a recording bus and replayed through the Lean machine model and the contention spec',
                  'the correspondence samples frame T-states (all window edges, all columns of selected lines, frame wrap, random) rather than all 69888/70908; the theorems cover every T',
                  'instructions whose OUT reaches the 128K paging latch in mid-instruction are skipped in the comparison'],
